@@ -350,14 +350,18 @@ def judge_client(s, pc, net, problems, ops_, max_pool_size):
 
 def client_harnesses(tier):
     hs = []
-    pairs = [("get", "set"), ("get", "fail"), ("fail", "fail"), ("get", "quit"), ("set", "get_many")]
+    pairs = [("get", "set"), ("get", "fail"), ("fail", "fail"), ("get", "quit"), ("set", "get_many"), ("set", "quit"),
+             ("quit", "quit"), ("fail", "quit")] if tier != "quick" else \
+            [("get", "set"), ("get", "fail"), ("fail", "fail"), ("get", "quit"), ("set", "get_many")]
     for ops_ in pairs:
         for mps in (1, 2, None):
             hs.append(("H3", ops_, mps, 0))
     # the same pairs once more at a higher preemption bound but line granularity (tag "L" in the idle slot)
+    # (quick tier only: in the thorough tier the pairs above already run at bound 2 with instruction granularity)
     for ops_ in [("get", "quit"), ("get", "fail"), ("set", "quit"), ("quit", "quit"), ("fail", "quit")]:
         for mps in (1, 2):
-            hs.append(("H3", ops_, mps, "L"))
+            if tier == "quick":
+                hs.append(("H3", ops_, mps, "L"))
     hs.append(("H3", ("get", "set"), 2, 10))
     hs.append(("H3", ("get", "set", "fail"), 2, 0))
     hs.append(("H3", ("get", "close"), 2, 0))
